@@ -24,6 +24,7 @@ from ..hyp import explore
 
 PROPERTY = "C17"
 LEVEL = "exploration"
+REPLAY_IN_RUN = True
 SHARDS = {"quick": 6, "thorough": 16}
 RULE = ("program variants (RK4, RK6, RK8, RK45, DOP853) x (event off | on with direction -1/0/+1) x (uniform | non-uniform grid) enumerated for every generated "
         "polynomial Hamiltonian (3 DOF, degree <= 4 quick / <= 6 thorough, 50% non-separable); per variant generated initial states / spans / tolerances; "
@@ -306,6 +307,8 @@ def eval_propagate(H, c, ctx):
 
 
 def run(ctx):
+    from ..runner import shard_replays
+    shard_replays(ctx, replay)
     maxdeg = ctx.scale(4, 6)
     explore(ctx, "rhs", rhs_case(maxdeg), eval_rhs, ctx.share(ctx.scale(240, 6000)))
     # one closure-compiled rhs per shard is always exercised
